@@ -14,8 +14,8 @@ from vf.taps.montap import montap
 
 LEVEL = "fault_enumeration"
 RULE = (
-    "fault enumeration: valid generated programs (a third of them with runs of statements moved into (nested) .include files) x 40 classes of definite error (invalid characters incl. NUL / DEL / non-ASCII, unterminated string, unknown keyword, "
-    "missing brace, missing operand, undefined symbol in a sized operand / in data, undefined macro, too few macro arguments, undefined symbol in a macro argument the body never reads, in an unused `=` symbol, in `*=`, unsupported "
+    "fault enumeration: valid generated programs (a third of them with runs of statements moved into (nested) .include files) x 44 classes of definite error (invalid characters incl. NUL / DEL / non-ASCII, unterminated string, unknown keyword, "
+    "missing brace, a brace closed once too often, a misspelled .map attribute, missing operand, undefined symbol in a sized operand / in data, undefined macro, too few macro arguments, undefined symbol in a macro argument the body never reads, in an unused `=` symbol, in `*=`, unsupported "
     "addressing mode, unsupported width, out-of-range branch, unmapped address, missing .include/.incbin/.table/.include_ips file) inserted "
     "at every statement position that is always expanded (thorough) or 6 positions (quick) x 5 entry points (string API, Program.assemble, "
     "Program.assemble_as_patch, CLI -f ips and -f sfc in-process; CLI subprocess for a sample); each faulty run must fail visibly (error string / exception / "
@@ -66,6 +66,10 @@ FAULTS = {
     "del_character": ("syntax", "\x7f"),
     "non_ascii_character": ("syntax", "\u00e9"),
     "double_quoted_string": ("syntax", ".ascii \"abc\""),
+    "extra_closing_braces_adjacent": ("syntax", "{\nnop\n}}"),
+    "extra_closing_brace": ("syntax", "{\nnop\n}\n}"),
+    "extra_closing_braces_after_scope": ("syntax", ".scope q9 {\nnop\n}}\nrts"),
+    "map_unknown_attribute": ("syntax", ".map identifier=1 bank_range=0x00,0x6f addr_range=0x8000,0xffff mask=0x8000 writeable=1"),
     "missing_include": ("syntax", ".include 'nofile_zz9.s'"),
     "missing_incbin": ("semantic", ".incbin 'nofile_zz9.bin'"),
     "missing_table": ("semantic", ".table 'nofile_zz9.tbl'"),
